@@ -335,7 +335,14 @@ namespace
 	   && a->get_import () != nullptr
 	   && (a = a->get_import ().get ()));
 
-    return std::make_unique <value_die> (a->get_dwctx (), par_die, 0, d);
+    // The parent lives in the same context as A does (which at this point
+    // is either the original DIE, or the DW_TAG_imported_unit DIE through
+    // which we left a partial unit), so it inherits A's import chain.
+    // Otherwise the next `parent` would not know how to leave the partial
+    // unit and would stop at its root.
+    return std::make_unique <value_die>
+      (a->get_dwctx (), d == doneness::cooked ? a->get_import () : nullptr,
+       par_die, 0, d);
   }
 }
 
